@@ -1,0 +1,22 @@
+//go:build verif
+
+package segment
+
+import "time"
+
+// VerifSetMaxPayloadSize overrides the per-datagram payload size and returns a restore function.
+func VerifSetMaxPayloadSize(size int) (restore func()) {
+	org := maxPayloadSize
+	maxPayloadSize = size
+	return func() { maxPayloadSize = org }
+}
+
+// VerifMaxPayloadSize returns the current per-datagram payload size.
+func VerifMaxPayloadSize() int { return maxPayloadSize }
+
+// VerifSetTimeNow overrides the clock used for expiry and returns a restore function.
+func VerifSetTimeNow(f func() time.Time) (restore func()) {
+	org := timeNow
+	timeNow = f
+	return func() { timeNow = org }
+}
